@@ -360,9 +360,7 @@ func runScript(g Glue, sc Script) Result {
 			if o.name == "call" {
 				st, err := call(ctx, payloads[o.v])
 				if err != nil {
-					ob := classify(err)
-					ob.Res = "error"
-					cres <- ob
+					cres <- Obs{Res: "error", Detail: fmt.Sprintf("%T: %v", err, err)}
 					continue
 				}
 				stream = st
